@@ -467,6 +467,10 @@ pub fn search_c20(rng: &mut Rng, thorough: bool) -> SearchResult {
         r.evaluations += 1;
         r.nontrivial += 1;
         for k in 1..=res {
+            // now and then ask for the base cell in between: nothing may be carried from one call to the next
+            if rng.chance(1, 8) {
+                let _ = api::cell_to_parent(if rng.chance(1, 2) { a } else { b }, Some(0));
+            }
             let anc = |c: u64| catch_unwind(move || api::cell_to_parent(c, Some(k))).ok().and_then(|x| x.ok());
             match (anc(a), anc(b)) {
                 (Some(pa), Some(pb)) => {
@@ -482,6 +486,9 @@ pub fn search_c20(rng: &mut Rng, thorough: bool) -> SearchResult {
         }
         let d = (res + rng.range_i(1, 4) as i32).min(29);
         if d > res {
+            if rng.chance(1, 4) {
+                let _ = api::cell_to_parent(a, Some(0));
+            }
             let (da, db) = match (api::cell_to_children(a, Some(d)), api::cell_to_children(b, Some(d))) {
                 (Ok(x), Ok(y)) if !x.is_empty() && !y.is_empty() => (x, y),
                 (x, y) => {
